@@ -20,6 +20,9 @@ def jobs_for(tier, rng):
         if mbs < 2 and ns > 30:
             mbs = 3
         g = rng.choice([[1, 2], [1, 2], [1, 4], [3, 4]])
+        if rng.random() < 0.25:
+            gen.fix_dups(m)
+            gen.add_rare(rng, m)              # a rare catastrophic event (2^-127 x 2^127), see tabular.make_problem
         job = {"mdp": m, "kind": "SAVI", "gamma": g, "eps": [1, rng.choice([2, 4, 8])],
                "test": rng.choice(["span", "max_diff"]), "calls": [rng.choice([3, 4, 6])],
                "mbs": mbs, "shuffle": k % 3 != 0, "seed": rng.randrange(10000),
